@@ -571,6 +571,30 @@ pub fn c07(tier: &str, acc: &mut Acc, bounds: &mut Vec<String>) {
         acc.merge(a);
     }
     bounds.push(format!("closure (E1) every automaton of {} x all embeddings x 3 kinds x nfb {{1,default}}, built + deserialised", scope.name()));
+    // leftmost-first in every registration order over three / four letters: patterns that are skipped
+    // (an earlier-registered pattern is their proper prefix) still contribute characters to the code
+    // mapper; the table must be wide enough for those codes as well
+    let lf_scope = if thorough { Scope::new(4, 2, 3, Order::AllOrders, 4, 0) } else { Scope::new(3, 2, 3, Order::AllOrders, 4, 1) };
+    for (variant, embs) in [
+        (Variant::Byte, enumr::byte_embeddings(util::seed()).into_iter().take(2).collect::<Vec<_>>()),
+        (Variant::Char, enumr::char_embeddings()),
+    ] {
+        let a = e2::run_scope(&lf_scope, &embs, |ctx, acc| {
+            let mut cfgs = Vec::new();
+            for nfb in [Some(1), None] {
+                let cfg = Cfg::new(variant, Kind::LF, nfb, Entry::Builder);
+                cfgs.push(cfg);
+                let origin = e2::case_json(&cfg, &ctx.pats, None);
+                set_case(prop, "table", origin.clone());
+                if let Some(b) = e2::build_or_violate(prop, "table", cfg, &ctx.pats, None, acc) {
+                    c07_closure(&b, &ctx.pats, &origin, acc);
+                }
+            }
+            e2::sweep_searches(prop, ctx, &cfgs, &|k| Method::for_kind(k).to_vec(), false, acc);
+        });
+        acc.merge(a);
+    }
+    bounds.push(format!("leftmost-first, all registration orders: closure + E2 under precondition checks on {} x byte[2] + all char embeddings x nfb {{1,default}}", lf_scope.name()));
     // decoder
     decoder_sweep(thorough, acc);
     bounds.push(format!("UTF-8 decoder under precondition checks: {} scalar values; all sequences of <= 3 over 12 boundary code points x 132 pattern triples x 3 kinds",
